@@ -373,3 +373,23 @@ Proof.
     + rewrite Nm. exact N1.
     + exact Lab.
 Qed.
+
+(* an empty position of a positional port map: no connection is made anywhere; beyond the ports of the referenced
+   definition an unnamed one-bit port takes the position, so that later positions keep their index *)
+Theorem pos_conn_empty_spec cur ii rk fresh index s s' : (rk < length (st_defs s))%nat ->
+  pos_conn cur ii rk fresh index None s = Ok s' ->
+  let rd := get_def rk s in
+  (forall k, k <> rk -> get_def k s' = get_def k s) /\ names s' = names s /\
+  (if fresh
+   then get_def rk s' = set_ports rd (ed_ports rd ++ [{| ep_name := None; ep_dir := None; ep_b := new_bundle (Some 0) (Some 0) 0 |}]) /\
+        b_lo (new_bundle (Some 0) (Some 0) 0) = 0 /\ length (b_items (new_bundle (Some 0) (Some 0) 0)) = 1%nat
+   else s' = s).
+Proof.
+  intros Hk H rd. unfold pos_conn in H. destruct fresh; inversion H; subst; clear H.
+  - split; [intros k Hn; apply get_put_other; exact Hn|]. split.
+    + unfold names, put_def, upd_def. cbn. apply nth_upd_map_at. intros x Hx.
+      assert (E : nth_error (st_defs s) rk = Some (get_def rk s)) by (unfold get_def; apply nth_error_nth'; exact Hk).
+      rewrite E in Hx. inversion Hx; subst. reflexivity.
+    + split; [apply get_put_same; exact Hk|]. split; vm_compute; reflexivity.
+  - split; [reflexivity|]. split; reflexivity.
+Qed.
